@@ -223,12 +223,19 @@ def extract_identity(tree):
     for (_, tgt, _, _) in single:
         _expect(tgt, "control", "identity term, one control: target")
     multi = gates_of(cb[0].orelse, "multi")
+    # two recognised shapes: target=control[-1], control=list(control[:-1])   (current source: target None)
+    #                        target=<int>,       control=control              (before fix ae252bf: hard-coded target)
     targets = set()
     for (_, tgt, _, call) in multi:
-        targets.add(_int_value(tgt, "identity term, several controls: target"))
-        _expect(_kw(call, "control", "multi"), "control", "identity term, several controls: control")
-    if len(targets) != 1 or min(targets) < 0:
-        raise TranslateError("identity term, several controls: targets %s" % sorted(targets))
+        ctl = _u(_kw(call, "control", "multi"))
+        if _u(tgt) == "control[-1]" and ctl in ("list(control[:-1])", "control[:-1]"):
+            targets.add(None)
+        elif ctl == "control":
+            targets.add(_int_value(tgt, "identity term, several controls: target"))
+        else:
+            raise TranslateError("identity term, several controls: unrecognised target/control %s / %s" % (_u(tgt), ctl))
+    if len(targets) != 1 or (None not in targets and min(targets) < 0):
+        raise TranslateError("identity term, several controls: targets %s" % sorted(map(str, targets)))
     return {"threshold_exp10": e, "single": [(n, m) for (n, _, m, _) in single],
             "multi": [(n, m) for (n, _, m, _) in multi], "target": targets.pop()}
 
@@ -237,7 +244,9 @@ def extract_identity(tree):
 # after the corresponding part of the source stopped being recognised (which is reported as a violation of its
 # own): the model correspondence then runs against these, and the evidence says so.
 FALLBACK = {"basis": [("X", "H", None, False), ("Y", "RX", 4, True)], "ops": ["X", "Y"], "angle": (2, 4, 2),
-            "threshold_exp10": -10, "single": [("PHASE", -1)], "multi": [("CPHASE", -2), ("CRZ", 2)], "target": 0}
+            "threshold_exp10": -10, "single": [("PHASE", -1)], "multi": [("CPHASE", -1)], "target": None}
+# the constants of the source before fix ae252bf (hard-coded target 0), used by the as-is Example of coq/props/C06.v
+ASIS_BEFORE_FIX = {"multi": [("CPHASE", -2), ("CRZ", 2)], "target": 0}
 
 
 def check_shapes(tree):
@@ -318,5 +327,5 @@ def emit(t):
          "          %d%%nat %d%%nat %d%%nat" % (k1, k2, k3),
          "          [%s]" % "; ".join('("%s", %s)' % (n, _z(m)) for n, m in t["single"]),
          "          [%s]" % "; ".join('("%s", %s)' % (n, _z(m)) for n, m in t["multi"]),
-         "          %d%%N %s." % (t["target"], _z(t["threshold_exp10"]))]
+         "          %s %s." % ("None" if t["target"] is None else "(Some %d%%N)" % t["target"], _z(t["threshold_exp10"]))]
     return "\n".join(L) + "\n"
